@@ -175,10 +175,14 @@ def prop (l : Line) (impl : String) : String :=
     else
       match (r.kept.zip r.seqs).zipIdx.findSome? (fun ((kept, got), i) =>
           let want := normalSeq l.o.fac l.c.w kept
-          if want == got then none
-          else
+          -- the predicate of `C01_e2e_roundtrip_partial`: every decoded message is the normal form of the retained
+          -- message, with its first timestamp where it was or in front
+          if !seqMatches normalValue false l.o.fac l.c.w.arch {} kept got then
             let k := ((want.zip got).zipIdx.find? (fun p => p.1.1 != p.1.2)).map (·.2) |>.getD (min want.length got.length)
-            some s!"fail:seq{i}.msg{k}:want={(want[k]?.map showN).getD "-"}") with
+            some s!"fail:seq{i}.msg{k}:want={(want[k]?.map showN).getD "-"}"
+          -- sharper (deterministic): the timestamp is in front exactly where the encoder compressed it
+          else if want != got then some s!"fail:seq{i}:timestamp-placement"
+          else none) with
       | some why => why
       | none => "ok"
 
